@@ -759,6 +759,7 @@ func c12(args []string) {
 		h.genericCase(ops, t.s, t.o, bnd, h.r.u64(), n32)
 	}
 
+	h.csvSubFields()
 	h.unscaledAnd64()
 	if *accPath != "" {
 		h.accessors(*accPath, thorough)
@@ -769,6 +770,112 @@ func c12(args []string) {
 	stat("oracle_evaluations", h.nEval)
 	stat("oracle_fail", h.fails)
 	stat("cases", h.caseIdx)
+}
+
+// csvRawRoundTrip: messages of number mesg built from each x by mk, FIT -> CSV -> FIT; the raw value of field num in each
+// message that comes back.
+func csvRawRoundTrip(ops *c12Ops, mesg typedef.MesgNum, num byte, xs []int64, mk func(x int64) proto.Message) ([]int64, string, error) {
+	var csvBuf bytes.Buffer
+	conv := fitcsv.NewFITToCSVConv(&csvBuf)
+	conv.OnMesg(proto.Message{Num: mesgnum.FileId, Fields: []proto.Field{factory.CreateField(mesgnum.FileId, 0).WithValue(typedef.FileActivity)}})
+	for _, x := range xs {
+		conv.OnMesg(mk(x))
+	}
+	conv.Wait()
+	if err := conv.Err(); err != nil {
+		return nil, "", fmt.Errorf("FIT to CSV: %v", err)
+	}
+	text := append([]byte(nil), csvBuf.Bytes()...)
+	var fitBuf bytes.Buffer
+	if err := fitcsv.NewCSVToFITConv(&fitBuf, bytes.NewReader(text)).Convert(); err != nil {
+		return nil, string(text), fmt.Errorf("CSV to FIT: %v", err)
+	}
+	fit, err := decoder.New(bytes.NewReader(fitBuf.Bytes()), decoder.WithNoComponentExpansion()).Decode()
+	if err != nil {
+		return nil, string(text), fmt.Errorf("decoding the converted FIT: %v", err)
+	}
+	var rs []int64
+	for i := range fit.Messages {
+		m := &fit.Messages[i]
+		if m.Num != mesg || (mesg == mesgnum.FileId && i == 0) {
+			continue
+		}
+		r, ok := ops.fromVal(m.FieldValueByNum(num))
+		if !ok {
+			r = ops.invalid() // omitted (or of another type): read as "no value"
+		}
+		rs = append(rs, r)
+	}
+	if len(rs) != len(xs) {
+		return nil, string(text), fmt.Errorf("converted FIT has %d messages for %d rows", len(rs), len(xs))
+	}
+	return rs, string(text), nil
+}
+
+// csvSubFields: a field printed under the name of one of its sub-fields (the reference field of the sub-field's map is in the
+// message) comes back from the CSV as the same raw value as when it is printed under its own name -- every dynamic field of
+// the profile x every sub-field with a map, boundary and generated raw values.
+func (h *c12Run) csvSubFields() {
+	loadFactory()
+	for _, km := range knownMesgs {
+		for _, fnum := range km.fields {
+			fld := factory.CreateField(km.num, fnum)
+			ops := c12OpsByBase[fld.BaseType]
+			if ops == nil || fld.Array || len(fld.SubFields) == 0 {
+				continue
+			}
+			for si, sf := range fld.SubFields {
+				if len(sf.Maps) == 0 {
+					continue
+				}
+				mp := sf.Maps[h.r.intn(len(sf.Maps))]
+				ref := factory.CreateField(km.num, mp.RefFieldNum)
+				rops := c12OpsByBase[ref.BaseType]
+				if rops == nil || ref.Array || ref.Num == fld.Num {
+					continue
+				}
+				ref.Value = rops.value(mp.RefFieldValue)
+				var xs []int64
+				for _, x := range append([]int64{ops.min(), ops.min() + 1, 1, 2, 3, 4, 5, 29, 12345, ops.max() - 1, ops.max()}, c12GenValues(ops.signed, ops.bits, h.r.u64(), 12)...) {
+					if x >= ops.min() && x <= ops.max() && x != ops.invalid() {
+						xs = append(xs, x)
+					}
+				}
+				own, _, err1 := csvRawRoundTrip(ops, km.num, fnum, xs, func(x int64) proto.Message {
+					f := factory.CreateField(km.num, fnum)
+					f.Value = ops.value(x)
+					return proto.Message{Num: km.num, Fields: []proto.Field{f}}
+				})
+				sub, text, err2 := csvRawRoundTrip(ops, km.num, fnum, xs, func(x int64) proto.Message {
+					f := factory.CreateField(km.num, fnum)
+					f.Value = ops.value(x)
+					return proto.Message{Num: km.num, Fields: []proto.Field{ref, f}}
+				})
+				stat("csv_subfield_owners", 1)
+				if err1 != nil || err2 != nil {
+					if (err1 == nil) != (err2 == nil) {
+						emitJSON("FAIL", "", map[string]any{"kind": "csv sub-field column: conversion fails only with (or only without) the reference field", "mesg": km.num, "field": fnum, "sub_field": si,
+							"err_own_name": fmt.Sprint(err1), "err_sub_field_name": fmt.Sprint(err2)})
+						h.fails++
+					}
+					continue
+				}
+				if !strings.Contains(text, sf.Name) {
+					stat("csv_subfield_not_substituted", 1)
+				}
+				for i, x := range xs {
+					h.nEval++
+					if own[i] != sub[i] {
+						emitJSON("FAIL", "", map[string]any{"kind": "csv sub-field column restores another raw value than the field's own column", "mesg": km.num, "field": fnum, "field_name": fld.Name,
+							"sub_field": sf.Name, "reference_field": ref.Num, "reference_value": mp.RefFieldValue, "raw": x, "back_under_own_name": own[i], "back_under_sub_field_name": sub[i],
+							"field_scale": fld.Scale, "sub_field_scale": sf.Scale})
+						h.fails++
+						break
+					}
+				}
+			}
+		}
+	}
 }
 
 // scale 1 / offset 0 (ApplyValue leaves the value alone) and the 64-bit types (sampled)
